@@ -1,25 +1,48 @@
 (* ---- C06 / C07: exhaustive exploration of the pool model for a script ---- *)
 
+(* "pool-bfs": case = script, optionally followed by `;` and cfg overrides
+   (loop=0 nonzero=0 old=N dec=relaxed load=relaxed) used to test that the
+   invariants are violated by the mutants they are meant to catch. *)
+let cfg_of_overrides (ovs : string list) : PoolM.cfg =
+  List.fold_left (fun (c : PoolM.cfg) ov ->
+    match String.split_on_char '=' ov with
+    | ["loop"; v] -> { c with PoolM.c_loop = (v = "1") }
+    | ["nonzero"; v] -> { c with PoolM.c_nonzero = (v = "1") }
+    | ["old"; v] -> { c with PoolM.c_unpark_old = nat_of_int (int_of_string v) }
+    | ["dec"; "relaxed"] -> { c with PoolM.c_dec = ORelaxed }
+    | ["load"; "relaxed"] -> { c with PoolM.c_load = ORelaxed }
+    | [""] -> c
+    | _ -> failwith ("bad override " ^ ov)) PoolM.code_cfg ovs
+
+let key (s : PoolM.state) : string = Marshal.to_string s [Marshal.No_sharing]
+
 let pool_bfs line =
-  let scr = List.map (fun t -> nat_of_int (int_of_string t)) (List.filter (fun t -> t <> "") (toks line)) in
+  let scr_s, ovs = match String.index_opt line ';' with
+    | Some i -> String.sub line 0 i, toks (String.trim (String.sub line (i + 1) (String.length line - i - 1)))
+    | None -> line, [] in
+  let cfg = cfg_of_overrides ovs in
+  let scr = List.map (fun t -> nat_of_int (int_of_string t)) (List.filter (fun t -> t <> "") (toks scr_s)) in
   let s0 = PoolM.init scr in
-  let seen = Hashtbl.create 100000 in
+  let seen : (string, unit) Hashtbl.t = Hashtbl.create 100000 in
   let q = Queue.create () in
-  Hashtbl.replace seen s0 (); Queue.add s0 q;
+  Hashtbl.replace seen (key s0) (); Queue.add s0 q;
   let trans = ref 0 and fails = ref [] and finals = ref 0 in
-  let fail m = if List.length !fails < 3 then fails := m :: !fails in
+  let fail m = if not (List.mem m !fails) then fails := m :: !fails in
   let lex_lt s' s =
     let o' = int_of_nat (PoolM.outer_measure s') and o = int_of_nat (PoolM.outer_measure s) in
     o' < o || (o' = o && int_of_nat (PoolM.inner_measure s') < int_of_nat (PoolM.inner_measure s)) in
-  while not (Queue.is_empty q) do
+  let limit = 3_000_000 in
+  while not (Queue.is_empty q) && Hashtbl.length seen < limit do
     let s = Queue.pop q in
-    if not (PoolM.inv_all s) then fail "inv_all";
-    let en = PoolM.enabled_labels s in
+    if not (PoolM.inv_all cfg s) then
+      List.iter (fun i -> fail (Printf.sprintf "inv%d" (int_of_nat i))) (PoolM.inv_failures cfg s);
+    let en = PoolM.enabled_labels cfg s in
     if PoolM.final s then begin
       incr finals;
       List.iteri (fun i n ->
         if not (PoolM.once_per_index s (nat_of_int (i + 1)) n) then fail "once_per_index";
-        if not (PoolM.published s (nat_of_int (i + 1)) n) then fail "published") scr
+        if not (PoolM.published s (nat_of_int (i + 1)) n) then fail "published";
+        if not (PoolM.results_indexed s (nat_of_int (i + 1)) n) then fail "results_indexed") scr
     end else if en = [] then fail "deadlock";
     let labels = PoolM.ESpurious :: List.concat_map (fun l ->
       match l with
@@ -27,15 +50,17 @@ let pool_bfs line =
       | PoolM.EWRun (k, _) -> [PoolM.EWRun (k, false); PoolM.EWRun (k, true)]
       | l -> [l]) (PoolM.candidate_labels s) in
     List.iter (fun l ->
-      match PoolM.step s l with
+      match PoolM.step cfg s l with
       | Some s' ->
         incr trans;
         if l <> PoolM.ESpurious && not (lex_lt s' s) then fail "measure";
-        if not (Hashtbl.mem seen s') then (Hashtbl.replace seen s' (); Queue.add s' q)
+        let k = key s' in
+        if not (Hashtbl.mem seen k) then (Hashtbl.replace seen k (); Queue.add s' q)
       | None -> ()) labels
   done;
-  Printf.sprintf "states %d transitions %d finals %d %s" (Hashtbl.length seen) !trans !finals
-    (if !fails = [] then "ok" else "FAIL " ^ String.concat "," !fails)
+  Printf.sprintf "states %d transitions %d finals %d %s%s" (Hashtbl.length seen) !trans !finals
+    (if !fails = [] then "ok" else "FAIL " ^ String.concat "," (List.sort compare !fails))
+    (if Hashtbl.length seen >= limit then " LIMIT" else "")
 
 
 let dispatch mode line =
